@@ -18,6 +18,7 @@ Interfaces: perform_merge(output_path, preset, output, generate_config_fn) -> No
 Implementation: Text-based parsing and merging to preserve YAML comments
 """
 
+import json
 import re
 import sys
 from collections.abc import Callable
@@ -216,6 +217,11 @@ def _merge_structurally(existing_config: dict, missing_sections: dict[str, str])
     return yaml.safe_dump(data, sort_keys=False, allow_unicode=True)
 
 
+def as_json_text(yaml_text: str) -> str:
+    """Render configuration text as JSON: a file named *.json is read with the JSON parser."""
+    return json.dumps(yaml.safe_load(yaml_text) or {}, indent=2, ensure_ascii=False) + "\n"
+
+
 def _parse_existing_config(content: str, output: str) -> dict:
     """Parse existing config file content as YAML."""
     try:
@@ -267,6 +273,8 @@ def perform_merge(
         # Appending text would corrupt this file (flow style, document end marker, ...):
         # merge the parsed data instead so that no existing setting is lost
         merged_content = _merge_structurally(existing_config, missing_sections)
+    if output_path.suffix.lower() == ".json":
+        merged_content = as_json_text(_merge_structurally(existing_config, missing_sections))
     output_path.write_text(merged_content, encoding="utf-8")
 
     _report_merge_results(missing_names, output)
